@@ -14,8 +14,9 @@ sh("rm -rf %s && mkdir -p %s" % (root, root))
 sh("cp -r /repo %s && rm -rf %s/target %s/.git" % (repo, repo, repo))
 sh("rsync -a --exclude .git --exclude replays --exclude work --exclude seeded /verif/ %s/" % verif)
 ct = os.path.join(verif, "harness", "Cargo.toml")
-open(ct, "w").write(open(ct).read().replace('path = "/repo"', 'path = "%s"' % repo))
-props = ["C%02d" % i for i in range(1, 20)]
+_txt = open(ct).read().replace('path = "/repo"', 'path = "%s"' % repo)
+open(ct, "w").write(_txt)
+props = sys.argv[3].split(",") if len(sys.argv) > 3 else ["C%02d" % i for i in range(1, 20)]
 res = {}
 for f in sorted(glob.glob(os.path.join(d, "refactor*.diff"))):
     name = os.path.basename(f)
